@@ -20,7 +20,8 @@ use vm_memory::{
     MemoryRegionAddress, MmapRegion, ReadVolatile, VolatileMemoryError, VolatileSlice, WriteVolatile,
 };
 
-pub const SUITES: &[Suite] = &[Suite { name: "C14", gen, exec }];
+// C14own: the same entry points driven with the crate's OWN endpoints (see the end of this file)
+pub const SUITES: &[Suite] = &[Suite { name: "C14", gen, exec }, Suite { name: "C14own", gen: gen_own, exec: exec_own }];
 
 #[derive(Clone, Copy, PartialEq, Eq, Debug)]
 enum Beh {
@@ -363,6 +364,319 @@ fn gen(rng: &mut Rng, tier: Tier, emit: &mut dyn FnMut(Vec<Tok>)) {
                 let addr = if rng.chance(1, 12) { *rng.pick(&big) } else { base.wrapping_sub(1).wrapping_add(rng.below(end - base + 3)) };
                 let count = if rng.chance(1, 12) { *rng.pick(&big) } else { rng.below(end - base + 3) };
                 case(rng, 2, &lay, mlen as usize, addr, count, op, &script, srclen);
+            }
+        }
+    }
+}
+
+// =========================================================================================== suite C14own
+// The guest-memory / region / slice stream entry points driven with the endpoints the crate itself provides:
+//   ekind 0 &[u8]  1 &mut [u8]  2 Vec<u8>  3 Cursor<&[u8]>  8 Cursor<Vec<u8>> (position anywhere, also past the end)
+//         5 File  6 UnixStream  7 pipe (OwnedFd): REAL descriptors whose read(2) / write(2) calls follow [script]
+//         (crate::fdscript; 0 Full 1 Zero 2 Eintr 3..8 hard error 16+k Short k; the real call once the script is over)
+// case:  mode target [layout] [memory] addr count op ekind [script] [content] pos
+// obs:   rk a b calls [endpoint data after] pos_after [out] [memory after]
+// The endpoint is observed independently of the transfer (backing array, second descriptor + lseek, FIONREAD, draining
+// the peer): super::c13::Stream::observe.
+use super::c13::Stream;
+use crate::fdscript;
+
+fn rd_op<A, E, T: Bytes<A, E = E>, S: ReadVolatile>(t: &T, addr: A, s: &mut S, count: usize, op: u64, ec: fn(&E) -> (u64, u64, u64)) -> (u64, u64, u64) {
+    if op == 0 {
+        match t.read_volatile_from(addr, s, count) {
+            Ok(k) => (0, k as u64, 0),
+            Err(e) => ec(&e),
+        }
+    } else {
+        match t.read_exact_volatile_from(addr, s, count) {
+            Ok(()) => (1, 0, 0),
+            Err(e) => ec(&e),
+        }
+    }
+}
+fn wr_op<A, E, T: Bytes<A, E = E>, S: WriteVolatile>(t: &T, addr: A, s: &mut S, count: usize, op: u64, ec: fn(&E) -> (u64, u64, u64)) -> (u64, u64, u64) {
+    if op == 2 {
+        match t.write_volatile_to(addr, s, count) {
+            Ok(k) => (0, k as u64, 0),
+            Err(e) => ec(&e),
+        }
+    } else {
+        match t.write_all_volatile_to(addr, s, count) {
+            Ok(()) => (1, 0, 0),
+            Err(e) => ec(&e),
+        }
+    }
+}
+/// one of the four stream methods of `t` with the endpoint `s`
+fn xfer<A, E, T: Bytes<A, E = E>>(t: &T, addr: A, s: &mut Stream, count: usize, op: u64, ec: fn(&E) -> (u64, u64, u64)) -> (u64, u64, u64) {
+    let rd = op <= 1;
+    match s {
+        Stream::SliceR { cur, .. } if rd => rd_op(t, addr, cur, count, op, ec),
+        Stream::CurR { c, .. } if rd => rd_op(t, addr, c, count, op, ec),
+        Stream::CurRV { c } if rd => rd_op(t, addr, c, count, op, ec),
+        Stream::SliceW { cur, .. } if !rd => wr_op(t, addr, cur, count, op, ec),
+        Stream::VecW { v, .. } if !rd => wr_op(t, addr, v, count, op, ec),
+        Stream::FileS { f, .. } => {
+            if rd {
+                rd_op(t, addr, f, count, op, ec)
+            } else {
+                wr_op(t, addr, f, count, op, ec)
+            }
+        }
+        Stream::Sock { a, .. } => {
+            if rd {
+                rd_op(t, addr, a, count, op, ec)
+            } else {
+                wr_op(t, addr, a, count, op, ec)
+            }
+        }
+        Stream::PipeVm { rd: r, wr: w, .. } => {
+            if rd {
+                rd_op(t, addr, r, count, op, ec)
+            } else {
+                wr_op(t, addr, w, count, op, ec)
+            }
+        }
+        _ => panic!("endpoint does not offer this operation"),
+    }
+}
+
+fn exec_own(case: &[Tok]) -> Vec<Tok> {
+    fdscript::self_test();
+    fdscript::watched(|| exec_own_inner(case))
+}
+fn exec_own_inner(case: &[Tok]) -> Vec<Tok> {
+    let target = case[1].u();
+    let lay: Vec<u64> = case[2].l().iter().map(|x| *x as u64).collect();
+    let mem0 = case[3].bytes();
+    let addr = case[4].u();
+    let count = case[5].u() as usize;
+    let op = case[6].u();
+    let ekind = case[7].u();
+    let script: Vec<fdscript::Beh> = case[8].l().iter().map(|x| fdscript::beh_of(*x)).collect();
+    let content = case[9].bytes();
+    let pos = case[10].u();
+    assert!(op <= 3 && script.len() <= 64 && content.len() <= 65536);
+    let is_fd = matches!(ekind, 5 | 6 | 7);
+    match ekind {
+        0 | 1 => assert!(pos <= content.len() as u64),
+        2 | 6 | 7 => assert!(pos == 0),
+        5 => assert!(pos <= 65536),
+        3 | 8 => {}
+        _ => panic!("bad endpoint kind"),
+    }
+    assert!(is_fd || script.is_empty());
+    let mut s = Stream::new(ekind, &content, pos, true);
+    let fd = if is_fd { s.raw_fd(op <= 1) } else { -1 };
+    // the transfer itself, under the script when the endpoint is a descriptor; a panic is an observation
+    let mut go = |f: &mut dyn FnMut(&mut Stream) -> (u64, u64, u64)| -> (Option<(u64, u64, u64)>, u64) {
+        if is_fd {
+            fdscript::with_script(fd, &script, || f(&mut s))
+        } else {
+            (util::catch(|| f(&mut s)), 0)
+        }
+    };
+    let ((rc, calls), mem1) = match target {
+        0 => {
+            let (soff, slen) = (lay[0] as usize, lay[1] as usize);
+            let mut parent = mem0.clone();
+            assert!(soff + slen <= parent.len());
+            let base = parent.as_mut_ptr();
+            let r = {
+                let vs = VolatileSlice::from(&mut parent[soff..soff + slen]);
+                go(&mut |s| xfer(&vs, addr as usize, s, count, op, verr))
+            };
+            (r, unsafe { peek(base, mem0.len()) })
+        }
+        1 => {
+            let (start, len) = (lay[0], lay[1] as usize);
+            assert!(len == mem0.len() && len > 0);
+            let r = GuestRegionMmap::<()>::new(MmapRegion::new(len).unwrap(), GuestAddress(start)).unwrap();
+            let p = r.as_ptr();
+            unsafe { poke(p, &mem0) };
+            let res = go(&mut |s| xfer(&r, MemoryRegionAddress(addr), s, count, op, gerr));
+            (res, unsafe { peek(p, len) })
+        }
+        2 => {
+            let ranges: Vec<(GuestAddress, usize)> = lay.chunks(2).map(|c| (GuestAddress(c[0]), c[1] as usize)).collect();
+            assert!(ranges.iter().map(|r| r.1).sum::<usize>() == mem0.len());
+            let gm = GuestMemoryMmap::<()>::from_ranges(&ranges).unwrap();
+            let ptrs: Vec<(*mut u8, usize)> = ranges
+                .iter()
+                .map(|(a, l)| {
+                    let r = gm.find_region(*a).unwrap();
+                    assert!(r.start_addr() == *a && r.len() as usize == *l);
+                    (r.as_ptr(), *l)
+                })
+                .collect();
+            let mut off = 0;
+            for (p, l) in &ptrs {
+                unsafe { poke(*p, &mem0[off..off + l]) };
+                off += l;
+            }
+            let res = go(&mut |s| xfer(&gm, GuestAddress(addr), s, count, op, gerr));
+            let mut m = Vec::new();
+            for (p, l) in &ptrs {
+                m.extend(unsafe { peek(*p, *l) });
+            }
+            (res, m)
+        }
+        _ => panic!("bad target"),
+    };
+    drop(go);
+    let rc = rc.unwrap_or((11, 0, 0));
+    let (d, p, o) = s.observe();
+    vec![n(rc.0), n(rc.1), n(rc.2), n(calls), d, n(p), o, Tok::of_bytes(&mem1)]
+}
+
+const OWN_ALPHABET: [&[u128]; 9] = [&[0], &[17], &[19], &[1], &[2], &[2, 2], &[3], &[4], &[16]];
+
+fn gen_own(rng: &mut Rng, tier: Tier, emit: &mut dyn FnMut(Vec<Tok>)) {
+    let mode = crate::build_mode();
+    let quick = tier == Tier::Quick;
+    let mut case = |rng: &mut Rng, target: u64, lay: &[u64], mlen: usize, addr: u64, count: u64, op: u64, ekind: u64, script: &[u128], content: &[u8], pos: u64| {
+        let mem = rng.bytes(mlen);
+        emit(vec![
+            n(mode),
+            n(target),
+            Tok::of_u64s(lay),
+            Tok::of_bytes(&mem),
+            n(addr),
+            n(count),
+            n(op),
+            n(ekind),
+            Tok::L(script.to_vec()),
+            Tok::of_bytes(content),
+            n(pos),
+        ])
+    };
+    let readers = [0u64, 3, 8, 5, 6, 7];
+    let writers = [1u64, 2, 5, 6, 7];
+    let cfgs = configs();
+    // 1. in-memory endpoints: every configuration x endpoint x operation x stream length (empty, shorter than, equal to,
+    //    longer than the count) x position (start, middle, end; cursors also past the end and u64::MAX)
+    for (target, lay, mlen, acs) in &cfgs {
+        for (addr, count) in acs {
+            let c = *count as usize;
+            for op in 0..4u64 {
+                let eks: &[u64] = if op <= 1 { &[0, 3, 8] } else { &[1, 2] };
+                for &ek in eks {
+                    for slen in [0usize, 1, c.saturating_sub(1), c, c + 1, c + 6] {
+                        let positions: Vec<u64> = match ek {
+                            0 | 1 => vec![0, (slen / 2) as u64, slen as u64],
+                            2 => vec![0],
+                            _ => vec![0, (slen / 2) as u64, slen as u64, slen as u64 + 1, slen as u64 + 7, u64::MAX, 1 << 63],
+                        };
+                        for pos in positions {
+                            let content = rng.bytes(slen);
+                            case(rng, *target, lay, *mlen, *addr, *count, op, ek, &[], &content, pos);
+                        }
+                    }
+                }
+            }
+        }
+    }
+    // 2. descriptors: every script of up to 2 (quick) / 4 (thorough) symbols on the fixed configurations
+    let maxlen = if quick { 2 } else { 4 };
+    let mut scripts: Vec<Vec<u128>> = vec![vec![]];
+    let mut frontier: Vec<Vec<u128>> = vec![vec![]];
+    for _ in 0..maxlen {
+        let mut next = Vec::new();
+        for s in &frontier {
+            for a in OWN_ALPHABET.iter() {
+                let mut t = s.clone();
+                t.extend_from_slice(a);
+                next.push(t);
+            }
+        }
+        scripts.extend(next.iter().cloned());
+        frontier = next;
+    }
+    for (si, script) in scripts.iter().enumerate() {
+        for (ci, (target, lay, mlen, acs)) in cfgs.iter().enumerate() {
+            for (ai, (addr, count)) in acs.iter().enumerate() {
+                if quick && (si + ai) % acs.len() != 0 {
+                    continue;
+                }
+                for op in 0..4u64 {
+                    let ek = [5u64, 6, 7][(si + ci + ai + op as usize) % 3];
+                    // readers: enough data (24 bytes) or too little; writers: some initial content
+                    let slen = if op <= 1 { if (si + ai) % 4 == 3 { (*count as usize) / 2 } else { 24 } } else { 3 };
+                    let content = rng.bytes(slen);
+                    let pos = if ek == 5 { (si % 3) as u64 } else { 0 };
+                    case(rng, *target, lay, *mlen, *addr, *count, op, ek, script, &content, pos);
+                }
+            }
+        }
+    }
+    // 3. random: layouts, addresses, counts (incl. 2^64-1) x endpoints x scripts
+    let nrand = if quick { 20_000 } else { 300_000 };
+    for _ in 0..nrand {
+        let op = rng.below(4);
+        let ek = if op <= 1 { *rng.pick(&readers) } else { *rng.pick(&writers) };
+        let is_fd = matches!(ek, 5 | 6 | 7);
+        let mut script: Vec<u128> = Vec::new();
+        if is_fd {
+            let nsym = if rng.chance(1, 10) { rng.range(6, 9) } else { rng.range(0, 5) };
+            for _ in 0..nsym {
+                match rng.below(10) {
+                    0 => script.push(16 + rng.below(6) as u128),
+                    1 => script.push(16 + rng.range(1, 12) as u128),
+                    2 => script.push(3 + rng.below(6) as u128),
+                    _ => script.extend_from_slice(*rng.pick(&OWN_ALPHABET)),
+                }
+            }
+        }
+        let slen = match rng.below(4) {
+            0 => rng.below(4) as usize,
+            _ => rng.below(30) as usize,
+        };
+        let content = rng.bytes(slen);
+        let pos = match ek {
+            0 | 1 => rng.below(slen as u64 + 1),
+            3 | 8 => match rng.below(6) {
+                0 => u64::MAX - rng.below(2),
+                1 => slen as u64 + rng.below(6),
+                _ => rng.below(slen as u64 + 1),
+            },
+            5 => rng.below(slen as u64 + 3),
+            _ => 0,
+        };
+        let big = [u64::MAX, u64::MAX - 1, 1 << 63, 1 << 32];
+        match rng.below(3) {
+            0 => {
+                let plen = rng.range(0, 24);
+                let soff = rng.below(plen + 1);
+                let sl = rng.below(plen - soff + 1);
+                let addr = if rng.chance(1, 12) { *rng.pick(&big) } else { rng.below(sl + 3) };
+                let count = if rng.chance(1, 12) { *rng.pick(&big) } else { rng.below(sl + 4) };
+                case(rng, 0, &[soff, sl], plen as usize, addr, count, op, ek, &script, &content, pos);
+            }
+            1 => {
+                let len = rng.range(1, 20);
+                let start = *rng.pick(&[0u64, 0x1000, u64::MAX - 64]);
+                let addr = if rng.chance(1, 12) { *rng.pick(&big) } else { rng.below(len + 3) };
+                let count = if rng.chance(1, 12) { *rng.pick(&big) } else { rng.below(len + 4) };
+                case(rng, 1, &[start, len], len as usize, addr, count, op, ek, &script, &content, pos);
+            }
+            _ => {
+                let base = *rng.pick(&[0u64, 0x1000, 0xffff_ffff_ffff_f000]);
+                let l1 = rng.range(1, 9);
+                let gap = if rng.bool() { 0 } else { rng.range(1, 3) };
+                let l2 = rng.range(1, 9);
+                let mut lay = vec![base, l1, base + l1 + gap, l2];
+                let mut mlen = l1 + l2;
+                let mut end = base + l1 + gap + l2;
+                if rng.chance(1, 3) {
+                    let gap2 = if rng.bool() { 0 } else { 1 };
+                    let l3 = rng.range(1, 6);
+                    lay.extend([end + gap2, l3]);
+                    mlen += l3;
+                    end += gap2 + l3;
+                }
+                let addr = if rng.chance(1, 12) { *rng.pick(&big) } else { base.wrapping_sub(1).wrapping_add(rng.below(end - base + 3)) };
+                let count = if rng.chance(1, 12) { *rng.pick(&big) } else { rng.below(end - base + 3) };
+                case(rng, 2, &lay, mlen as usize, addr, count, op, ek, &script, &content, pos);
             }
         }
     }
